@@ -33,9 +33,36 @@ EOM
 (cd "$VERIF" && go build -trimpath -tags instr -modfile="$SCR/go.mod" -o "$SCR/simcheck" ./cmd/simcheck) >"$SCR/build.log" 2>&1 \
   || { cat "$SCR/build.log" >&2; echo "run.sh: build failed (the tree under $REPO does not compile with the simulation passes applied)" >&2; exit 2; }
 
+# DESIGN §3.2 cross-check: the same scenarios on the UNinstrumented tree (seams only, Go's own
+# map order). Verdicts must agree run by run; for the worlds whose observations do not depend
+# on map order the observation digests must be identical too. A disagreement means the
+# simulation passes changed the library's behaviour: a harness problem, exit 2.
+crosscheck() {
+  local n=300
+  case "$prop" in C18) return 0 ;; C12|C14) n=120 ;; esac
+  mkdir -p "$SCR/plain"; rsync -a --exclude .git --exclude '*_test.go' "$REPO"/ "$SCR/plain/snes"/ || return 2
+  sed "s|$SCR/snes|$SCR/plain/snes|" "$SCR/go.mod" >"$SCR/plain/go.mod"; : >"$SCR/plain/go.sum"
+  (cd "$VERIF" && go build -trimpath -modfile="$SCR/plain/go.mod" -o "$SCR/simcheck.plain" ./cmd/simcheck) >"$SCR/build.plain.log" 2>&1 || { cat "$SCR/build.plain.log" >&2; return 2; }
+  SIM_RELAX="${SIM_RELAX:-D2}" "$SCR/simcheck" eventlog "$prop" quick $n 2>/dev/null | grep '^RUN' >"$SCR/cc.instr"
+  SIM_RELAX="${SIM_RELAX:-D2}" "$SCR/simcheck.plain" eventlog "$prop" quick $n 2>/dev/null | grep '^RUN' >"$SCR/cc.plain"
+  # Only runs that pass in both builds are compared (a violation is the main run's business, and
+  # with Go's own map order an order-dependent violation may legitimately show in one build only).
+  awk '$NF=="v=true"{exit} {print}' "$SCR/cc.instr" >"$SCR/cc.i0"; awk '$NF=="v=true"{exit} {print}' "$SCR/cc.plain" >"$SCR/cc.p0"
+  local k; k=$(wc -l <"$SCR/cc.i0"); local k2; k2=$(wc -l <"$SCR/cc.p0"); [ "$k2" -lt "$k" ] && k=$k2
+  case "$prop" in C06|C15|C16|C19) head -n "$k" "$SCR/cc.i0" | awk '{print $2,$3}' >"$SCR/cc.i"; head -n "$k" "$SCR/cc.p0" | awk '{print $2,$3}' >"$SCR/cc.p" ;;
+    *) head -n "$k" "$SCR/cc.i0" | awk '{print $2,$3,$4}' >"$SCR/cc.i"; head -n "$k" "$SCR/cc.p0" | awk '{print $2,$3,$4}' >"$SCR/cc.p" ;; esac
+  if ! cmp -s "$SCR/cc.i" "$SCR/cc.p"; then
+    echo "run.sh: instrumented and plain builds disagree on $prop:" >&2; diff "$SCR/cc.i" "$SCR/cc.p" | head -6 >&2; return 2
+  fi
+  export SIM_CROSSCHECK="$(wc -l <"$SCR/cc.i" | tr -d ' ') passing runs executed on both the instrumented copy and the plain tree$(case "$prop" in C06|C15|C16|C19) echo " (observations depend on map order: not compared)" ;; *) echo ": observation digests identical" ;; esac)"
+  return 0
+}
+
 case "$mode" in
   replay) "$SCR/simcheck" replay "$prop" "${3:?replay file}"; exit $? ;;
-  quick|thorough) "$SCR/simcheck" "$prop" "$mode"; exit $? ;;
+  quick|thorough)
+    if [ "${SIM_NO_CROSSCHECK:-0}" != 1 ]; then crosscheck || { echo "run.sh: cross-check failed" >&2; exit 2; }; fi
+    "$SCR/simcheck" "$prop" "$mode"; exit $? ;;
   eventlog) "$SCR/simcheck" eventlog "$prop" "${3:-quick}" "${4:-200}"; exit $? ;;
   determinism)
     # DESIGN §6.1: the same runs in many separate processes at GOMAXPROCS 1/4/16, two
